@@ -59,6 +59,9 @@ type Case struct {
 	// platform.Parse("local" | <local OS> | <local architecture>), in which case
 	// Req is replaced by platform.Local() of the machine running the check.
 	ReqVia string `json:"req_via,omitempty"`
+	// ReqSpell: with local-os / local-arch, the spelling handed to Parse (any
+	// alias of the local OS / architecture in any case; "" = canonical).
+	ReqSpell string `json:"req_spell,omitempty"`
 	// Additional MatchOpt fields next to Platform (regctl artifact get --platform
 	// with --filter-artifact-type / --filter-annotation / --sort-annotation /
 	// --latest): "" | at | ann | ann-key | sort | sort-desc | all. Attr[i] says how
@@ -276,10 +279,21 @@ func assemble(comp Plat, casing func(string) string, key string) string {
 
 func genString(t *rapid.T) Case {
 	comp := genReq(t)
-	if rapid.IntRange(0, 9).Draw(t, "arch_only") == 0 {
-		comp.OS, comp.Variant = "", ""
-	}
 	key := rapid.SampledFrom(osverKeys).Draw(t, "key")
+	switch rapid.IntRange(0, 9).Draw(t, "short_form") {
+	case 0: // architecture only, biased to spellings of the local architecture
+		comp.OS, comp.Variant = "", ""
+		if rapid.Bool().Draw(t, "local_arch") {
+			comp.Arch = rapid.SampledFrom(spellingsOfLocal("local-arch")).Draw(t, "arch_spelling")
+		}
+		return Case{Kind: "string", Comp: &comp, Str: assembleShort(comp, func(s string) string { return randCase(t, s) }, key)}
+	case 1: // OS only
+		comp.Arch, comp.Variant = "", ""
+		if rapid.IntRange(0, 5).Draw(t, "os_local") == 0 {
+			comp.OS = "local"
+		}
+		return Case{Kind: "string", Comp: &comp, Str: assembleShort(comp, func(s string) string { return randCase(t, s) }, key)}
+	}
 	return Case{Kind: "string", Comp: &comp, Str: assemble(comp, func(s string) string { return randCase(t, s) }, key)}
 }
 
@@ -304,6 +318,41 @@ func localPlat() Plat {
 	return Plat{OS: lp.OS, Arch: lp.Architecture, Variant: lp.Variant, OSVer: lp.OSVersion}
 }
 
+// architecture spellings Parse documents as usable without an OS
+var knownShortArch = map[string]bool{}
+
+func init() {
+	for _, av := range archVariants {
+		knownShortArch[av[0]] = true
+	}
+}
+
+// spellingsOfLocal: every spelling of the local OS / architecture.
+func spellingsOfLocal(via string) []string {
+	lp := platform.Local()
+	var out []string
+	if via == "local-os" {
+		out = []string{lp.OS}
+		if lp.OS == "darwin" {
+			out = append(out, "macos")
+		}
+		return out
+	}
+	seen := map[string]bool{}
+	for _, av := range archVariants {
+		if !seen[av[0]] && archAlias[av[0]] == lp.Architecture || (av[0] == lp.Architecture && !seen[av[0]]) {
+			seen[av[0]] = true
+			if av[0] != "armhf" && av[0] != "armel" { // these carry a variant of their own
+				out = append(out, av[0])
+			}
+		}
+	}
+	if len(out) == 0 {
+		out = []string{lp.Architecture}
+	}
+	return out
+}
+
 var filterDraw = []string{"at", "ann", "ann-key", "sort", "sort-desc", "all"}
 
 // genSelect draws a selection case: the request (as a struct, through Parse, or
@@ -313,7 +362,12 @@ func genSelect(t *rapid.T) Case {
 	c := Case{API: true, APIJSON: rapid.IntRange(0, 3).Draw(t, "api_json") == 0, Entries: []Plat{}}
 	switch k := rapid.IntRange(0, 19).Draw(t, "req_via"); {
 	case k < 2:
-		c.Req, c.ReqVia = localPlat(), rapid.SampledFrom([]string{"local", "local-os", "local-arch"}).Draw(t, "local_form")
+		c.Req, c.ReqVia = localPlat(), rapid.SampledFrom([]string{"local", "local-os", "local-arch", "local-arch"}).Draw(t, "local_form")
+		if c.ReqVia != "local" {
+			if sp := randCase(t, rapid.SampledFrom(spellingsOfLocal(c.ReqVia)).Draw(t, "local_spelling")); sp != map[string]string{"local-os": c.Req.OS, "local-arch": c.Req.Arch}[c.ReqVia] {
+				c.ReqSpell = sp
+			}
+		}
 	case k < 8:
 		c.Req, c.ReqVia = genReq(t), "parse"
 	default:
@@ -551,6 +605,21 @@ func check(c Case, ev *evid.Collector) *evid.Violation {
 		viaLabel = "req-via:" + c.ReqVia
 		c.Req = localPlat()
 		s := map[string]string{"local": "local", "local-os": c.Req.OS, "local-arch": c.Req.Arch}[c.ReqVia]
+		if c.ReqSpell != "" && c.ReqVia != "local" {
+			// must be a spelling of the same OS / architecture
+			same := false
+			if c.ReqVia == "local-os" {
+				same = canonicalShortForm(Plat{OS: c.ReqSpell}) == c.Req.OS
+			} else {
+				same = refNorm(Plat{OS: "x", Arch: c.ReqSpell}).arch == c.Req.Arch && knownShortArch[strings.ToLower(c.ReqSpell)]
+			}
+			if !same {
+				ev.Case(false, "", "outside-domain")
+				return nil
+			}
+			s = c.ReqSpell
+			viaLabel += "-alias-spelling"
+		}
 		var err error
 		if hp, err = platform.Parse(s); err != nil {
 			ev.Case(false, "", viaLabel)
@@ -1063,9 +1132,16 @@ func checkLawCase(c Case, ev *evid.Collector) *evid.Violation {
 // ------------------------------------------------------------------- strings
 
 func checkString(cs Case, ev *evid.Collector) *evid.Violation {
-	if cs.Comp == nil || cs.Comp.Nil || cs.Comp.Arch == "" {
+	if cs.Comp == nil || cs.Comp.Nil || (cs.Comp.Arch == "" && cs.Comp.OS == "") {
 		ev.Case(false, "", "outside-domain")
 		return nil
+	}
+	if cs.Comp.Arch == "" || cs.Comp.OS == "" {
+		if cs.Comp.Variant != "" {
+			ev.Case(false, "", "outside-domain")
+			return nil
+		}
+		return checkShortForm(cs, ev)
 	}
 	c := struct {
 		Str  string
@@ -1126,6 +1202,132 @@ func checkString(cs Case, ev *evid.Collector) *evid.Violation {
 		if s3 := toPlatform(c.Comp).String(); s3 != s1 {
 			return evid.V("string-of-alias-not-canonical", "Platform%+v.String() = %q, Parse(%q).String() = %q", c.Comp, s3, c.Str, s1)
 		}
+	}
+	return nil
+}
+
+// osRuns: the documented OS family rule (Docker Desktop runs Linux images).
+func osRuns(host, target string) bool {
+	switch host {
+	case "windows", "darwin":
+		return target == host || target == "linux"
+	}
+	return target == host
+}
+
+// shortFormWant is what the documentation (TestPlatformParse goals, regctl
+// "--platform local") says a short platform string means on this machine: an
+// OS-only string is that OS with the local architecture and variant when the
+// local OS can run it; an architecture-only string is the local OS with that
+// architecture and, when it is the local architecture, the local variant. Every
+// spelling of the same OS / architecture (aliases, any case) means the same.
+// variantKnown is false where the documentation leaves the variant open.
+func shortFormWant(comp Plat) (want platform.Platform, variantKnown bool) {
+	lp := platform.Local()
+	expands := func(o string) bool { return o == "linux" || o == "darwin" || o == "windows" }
+	if comp.OS == "" { // architecture only
+		cn := refNorm(Plat{OS: lp.OS, Arch: comp.Arch})
+		want = platform.Platform{OS: lp.OS, Architecture: cn.arch, Variant: canonVariant(cn), OSVersion: comp.OSVer}
+		if cn.arch == lp.Architecture && expands(lp.OS) {
+			if cn.arch == "arm" {
+				return want, false // arm short forms carry a default variant of their own
+			}
+			want.Variant = lp.Variant
+		}
+		return want, true
+	}
+	// OS only
+	o := strings.ToLower(comp.OS)
+	if o == "macos" {
+		o = "darwin"
+	}
+	if o == "local" {
+		o = lp.OS
+	}
+	want = platform.Platform{OS: o, OSVersion: comp.OSVer}
+	if expands(o) && osRuns(lp.OS, o) {
+		want.Architecture, want.Variant = lp.Architecture, lp.Variant
+	}
+	return want, true
+}
+
+// canonicalShortForm: the canonical lower-case spelling of the same short form.
+func canonicalShortForm(comp Plat) string {
+	c := comp
+	if comp.OS == "" {
+		c.Arch = refNorm(Plat{OS: "linux", Arch: comp.Arch}).arch
+	} else {
+		c.OS = strings.ToLower(comp.OS)
+		if c.OS == "macos" {
+			c.OS = "darwin"
+		}
+	}
+	return assembleShort(c, func(s string) string { return s }, "osver")
+}
+
+func assembleShort(comp Plat, casing func(string) string, key string) string {
+	s := comp.Arch
+	if comp.OS != "" {
+		s = comp.OS
+	}
+	s = casing(s)
+	if comp.OSVer != "" {
+		s += "," + key + "=" + comp.OSVer
+	}
+	return s
+}
+
+func checkShortForm(cs Case, ev *evid.Collector) *evid.Violation {
+	comp := *cs.Comp
+	cl := "string:arch-only"
+	if comp.OS != "" {
+		cl = "string:os-only"
+	}
+	cl2, cl3 := "", ""
+	if comp.OSVer != "" {
+		cl2 = "string:with-osver-arg"
+	}
+	lp := platform.Local()
+	if (comp.OS == "" && refNorm(Plat{OS: "x", Arch: comp.Arch}).arch == lp.Architecture) ||
+		(comp.OS != "" && canonicalShortForm(Plat{OS: comp.OS}) == lp.OS) || strings.EqualFold(comp.OS, "local") {
+		cl3 = "string:short-form-of-local-platform"
+	}
+	ev.Case(false, "", "kind:string", cl, cl2, cl3)
+	ev.Sample(cs)
+	p, err := platform.Parse(cs.Str)
+	if err != nil {
+		return evid.V("parse-rejects-universe-string", "Parse(%q): %v", cs.Str, err)
+	}
+	want, variantKnown := shortFormWant(comp)
+	if lp.OS == "windows" {
+		want.OSVersion = p.OSVersion // filled from the local machine, not modelled
+	}
+	if p.OS != want.OS || p.Architecture != want.Architecture || (variantKnown && p.Variant != want.Variant) || p.OSVersion != want.OSVersion {
+		return evid.V("short-form-not-expanded-from-local-platform", "Parse(%q) = %+v; on this machine (local platform %s) the documented meaning is %+v", cs.Str, p, lp, want)
+	}
+	// every spelling means the same as the canonical spelling
+	cstr := canonicalShortForm(comp)
+	// (armel is arm/v6, which has no one-word canonical spelling)
+	if cstr != cs.Str && !strings.EqualFold(comp.OS, "local") && !strings.EqualFold(comp.Arch, "armel") {
+		pc, err := platform.Parse(cstr)
+		if err != nil {
+			return evid.V("parse-rejects-universe-string", "Parse(%q): %v", cstr, err)
+		}
+		if pc.OS != p.OS || pc.Architecture != p.Architecture || pc.Variant != p.Variant || pc.OSVersion != p.OSVersion {
+			return evid.V("alias-short-form-differs-from-canonical-spelling", "Parse(%q) = %+v but Parse(%q) = %+v", cs.Str, p, cstr, pc)
+		}
+	}
+	// normal form prints and re-parses to itself
+	s1 := p.String()
+	p1, err := platform.Parse(s1)
+	if err != nil {
+		return evid.V("normal-form-does-not-reparse", "Parse(%q).String() = %q which Parse rejects: %v", cs.Str, s1, err)
+	}
+	if p.Architecture != "" && (p1.OS != p.OS || p1.Architecture != p.Architecture || p1.Variant != p.Variant) {
+		return evid.V("normal-form-reparses-differently", "Parse(%q) = %+v prints as %q which parses to %+v", cs.Str, p, s1, p1)
+	}
+	if s2 := p1.String(); s2 != s1 {
+		return evid.V("string-parse-not-fixed-point", "Parse(%q): %q re-parses and prints as %q", cs.Str, s1, s2)
 	}
 	return nil
 }
@@ -1453,7 +1655,33 @@ func TestVerifStrings(t *testing.T) {
 		}
 		return fails < maxFailsPerShard
 	}
-	for _, o := range append([]string{"macos", "local", ""}, osList...) {
+	// short forms: every OS spelling alone, every architecture spelling alone
+	for _, ver := range osVers {
+		keys := osverKeys
+		if ver == "" {
+			keys = keys[:1]
+		}
+		for _, cf := range casings {
+			for _, key := range keys {
+				for _, o := range append([]string{"macos", "local"}, osList...) {
+					cp := Plat{OS: o, OSVer: ver}
+					if !run(Case{Kind: "string", Comp: &cp, Str: assembleShort(cp, cf, key)}) {
+						return
+					}
+				}
+				for _, av := range archVariants {
+					if av[1] != "" {
+						continue
+					}
+					cp := Plat{Arch: av[0], OSVer: ver}
+					if !run(Case{Kind: "string", Comp: &cp, Str: assembleShort(cp, cf, key)}) {
+						return
+					}
+				}
+			}
+		}
+	}
+	for _, o := range append([]string{"macos", "local"}, osList...) {
 		for _, av := range archVariants {
 			if o == "" && av[1] != "" {
 				continue
